@@ -164,10 +164,46 @@ func runC05(c *Ctx) {
 		eachInstr(maskX, func(_ *ssa.BasicBlock, in ssa.Instruction) {
 			if cl, ok := in.(*ssa.Call); ok && cl.Call.StaticCallee() != nil {
 				switch calleeName(cl.Call.StaticCallee()) {
-				case "strings.IndexAny", "strings.ContainsAny", "strings.FieldsFunc":
+				case "strings.IndexAny", "strings.ContainsAny":
 					if k, ok := cl.Call.Args[1].(*ssa.Const); ok {
 						cut += constantString(k)
 						n++
+					}
+				case "strings.FieldsFunc", "strings.IndexFunc", "strings.ContainsFunc":
+					// the split set is the set of characters the predicate accepts: the predicate is
+					// evaluated on every ASCII character inside the checker
+					var pred *ssa.Function
+					switch p := cl.Call.Args[1].(type) {
+					case *ssa.Function:
+						pred = p
+					case *ssa.MakeClosure:
+						if len(p.Bindings) == 0 {
+							pred, _ = p.Fn.(*ssa.Function)
+						}
+					}
+					if pred != nil && pred.Blocks != nil && len(pred.Params) == 1 {
+						okAll := true
+						set := ""
+						for ch := int64(1); ch < 128; ch++ {
+							g := NewGate(c.P)
+							sm := g.EvalArgs(pred, []*E{g.U.ConstVal(constantInt(ch), pred.Params[0].Type())}, nil)
+							if len(sm.Rets) == 0 || len(sm.Effects) != 0 {
+								okAll = false
+								break
+							}
+							r := g.RetExpr(sm, 0)
+							if r.Op != "bool" || (r.B != True && r.B != False) {
+								okAll = false
+								break
+							}
+							if r.B == True {
+								set += string(rune(ch))
+							}
+						}
+						if okAll {
+							cut += set
+							n++
+						}
 					}
 				}
 			}
